@@ -114,7 +114,7 @@ def _rely_as_guarantee(c):
     )
 
 
-@contract("bellows.uart.Gateway.reset_received", props=["C11", "C10"])
+@contract("bellows.uart.Gateway.reset_received", props=["C11", "C10", "C09"])
 def _(c):
     c.self(GW)
     c.arg("code", T.enum(t.NcpResetCode))
